@@ -37,6 +37,8 @@ package dns
 //@   ensures empty: len(s) == 0 ==> !ok
 //@   ensures valid: IsFqdnSpec(s) ==> ok == (namescan(s, 0, 0, 0, false, 0) >= 0)
 //@   ensures count: IsFqdnSpec(s) && ok ==> labels == namescan(s, 0, 0, 0, false, 0)
+// a name that ends in a dangling (itself unescaped) backslash has no wire form, qualified or not
+//@   ensures dangle: len(s) > 0 && s[len(s)-1] == '\\' && !escd(s, len(s)-1) ==> !ok
 //@   loop 1 invariant 0 <= i && 0 <= begin && begin <= i && 0 <= off && off <= begin && 0 <= labels && len(s) > 0
 //@   loop 1 invariant rest: namescan(s, 0, 0, 0, false, 0) == namescan(s, i, i - begin, off, wasDot, labels)
 //@   loop 1 invariant unesc: i <= len(s) + 1 && (i == len(s) + 1 ==> s[len(s)-1] == '\\') && (i < len(s) ==> !escd(s, i))
